@@ -143,6 +143,65 @@ def check_sites(rep, crate, cfgname, vetted, counts):
     return n_bodies
 
 
+# ---------------------------------------------------------------- TINV
+
+def check_type_invariants(rep, crate, cfgname):
+    """TINV-EST: every construction of a struct with a never-empty field provides a provably non-empty collection -- a
+    non-empty literal, or a value whose emptiness makes an unconditional assert of the constructing function fire.
+    (TINV-KEEP, that every later mutation only extends it, is the CACHE-APPEND who-may-write rule.)"""
+    n = 0
+    for field, ty in sites.NONEMPTY_FIELDS.items():
+        owners = [p for p, a in crate.adts.items() if a.get('kind') == 'Struct' and any(f.get('name') == field for v in a.get('variants', []) for f in v.get('fields', []))]
+        if owners != [ty]:
+            rep.bad('TINV', f'TINV-UNIQUE:{field}', ty, f'field {field} is declared by {owners}', f'only by {ty}', fn=ty,
+                    why='the invariant is attached to the field name; another struct with the same field name would inherit it unchecked')
+            continue
+        for b in crate.body_list:
+            if sites.skip_body(b):
+                continue
+            lits = [x for x in b.walk() if x.get('k') == 'Struct' and (x['path'].get('def') == ty or strip_ty(x.get('ty', '')) == ty)]
+            if not lits:
+                continue
+            ev = Evaluator(crate)
+            try:
+                top = ev.eval_entry(b)
+            except RecursionError:
+                rep.bad('TINV', f'TINV-EST:{b.path}', loc(b.raw), 'evaluation did not terminate', fn=b.path)
+                continue
+            vals = [top] + [e['value'] for e in ev.events if e['kind'] == 'ret' and e['depth'] == 0 and e.get('value') is not None]
+            structs = []
+            for v in vals:
+                for y in T.subterms(T.unroot(v)):
+                    if isinstance(y, tuple) and len(y) == 3 and y[0] == 'struct' and y[1] == ty and y not in structs:
+                        structs.append(y)
+            asserts = [T.canon(e['pc'][-1], True) for e in ev.events if e['kind'] == 'panic' and e['depth'] == 0 and len(e['pc']) == 1]
+            key = f'TINV-EST:{b.path}'
+            if len(structs) < 1:
+                rep.bad('TINV', key, loc(lits[0]), f'[{cfgname}] {len(lits)} construction(s) of {ty} whose value the evaluator does not see in the result', 'a construction that is part of the returned value', fn=b.path, why='fail closed')
+                continue
+            n += 1
+            bad = []
+            for st in structs:
+                v = T.unroot(dict(st[2]).get(field))
+                lit = [y for y in T.subterms(v) if isinstance(y, tuple) and len(y) == 2 and y[0] == 'arr']
+                is_literal = bool(lit) and len(lit[0][1]) >= 1 and (v == lit[0] or (isinstance(v, tuple) and v[0] == 'call' and sum(1 for a in v[2] if a is not None and a != 'None' and a != ('none',)) == 1))
+                empty = T.canon(T.le0(T.root(('len', v))), True)
+                if not (is_literal or empty in asserts):
+                    bad.append(T.show(v)[:120])
+            if bad:
+                rep.bad('TINV', key, loc(lits[0]), f'[{cfgname}] {ty} is constructed with {field} = {"; ".join(bad)}, not known to be non-empty',
+                        'a non-empty literal, or an unconditional assert!(!v.is_empty()) in the constructing function', fn=b.path,
+                        direction='an empty delta-min vector reaches code that indexes its first / last element',
+                        why='every method of the type relies on the invariant (first / last element, modulo by the largest distance)')
+            else:
+                rep.ok('TINV', key, loc(lits[0]), f'[{cfgname}] every {ty} built here has a non-empty {field} (literal, or asserted)', fn=b.path)
+    return n
+
+
+def strip_ty(t):
+    return t.replace('&', '').replace('mut ', '').strip().split('<')[0]
+
+
 # ---------------------------------------------------------------- TERM
 
 FINITE_CALLS = ('demand::RequestBound::job_cost_iter',)   # finite by contract: takes number_arrivals(delta) items
